@@ -9,7 +9,9 @@ META = {
                    "guard (one arm cannot reach Ok), the Ok aggregate does not mention the length, every byte index / slice end that "
                    "reaches the Ok value or an Ok-path condition is <= L+5 / L+6; message_number is Some(first 12 payload bits) iff L >= 2; "
                    "from_message_frame reads only data() and message_number() and hands the decoders a Parser over data() at bit 12; "
-                   "decoders take only &mut Parser (type level).",
+                   "decoders take only &mut Parser (type level). Frames reach most callers through next_msg_frame / MsgFrameIter: whether a frame is "
+                   "delivered at all must not depend on what follows it either, so the scanner clauses of C05 are imported (S-sem: every 0xD3 position "
+                   "is handed to new() with the whole remaining slice, its Ok value is passed on unchanged, nothing else decides a verdict).",
     "assumptions": [],
 }
 
@@ -21,6 +23,9 @@ def run(ctx, res):
     if m.ok and len(m.oks) == 1:
         framing.rule_n_pres(prog, res, m)
         framing.rule_d_len(prog, res, m)
+    # the route by which frames are obtained in practice: the scanner must not make delivery depend on the suffix (a tail-length gate, a
+    # look-ahead past the frame): C05's scanner clauses, imported
+    framing.rules_scan(prog, engine.Filtered(res, {"S-first", "S-cand", "S-ok", "S-inc", "S-end", "S-skip", "S-shape", "S-sem", "S-anchor"}), m)
     dec = dispatch.decode_table(prog, engine.Filtered(res, {"T-dec"}, ("number-source", "return-shape", "default-carries-number", "typed-arm", "empty-arm")))
     if dec:
         dispatch.parser_rule(prog, res, dec)
